@@ -49,6 +49,7 @@ type fabMachine struct {
 	Topo     string
 	Progs    [][]fabStep
 	Pads     []int
+	BPad     int
 	Bonds    []fabBond
 	Nin      int
 	Nout     int
@@ -96,7 +97,7 @@ func buildFabric(f fabMachine) (*bondmachine.Bondmachine, error) {
 				nout = s.B + 1
 			}
 		}
-		text := fabProgramText(steps, f.Pads[p])
+		text := fabProgramText(steps, f.Pads[p]+f.BPad)
 		if d, ok := domOf[text]; ok && f.Shared {
 			bm.Add_processor(d)
 			continue
@@ -145,10 +146,10 @@ func parseEnd(v tlaval.Value) fabEnd {
 
 // fabCatalogue mirrors BMFabric!Topos (programs and bonds are read from the specification's state
 // through the exported constant below, so the two cannot drift).
-func genFabrics(r *evid.Run, scratch string, budget, n int, seed int64) (out []fabMachine, transitions int64, ok bool) {
-	dir := filepath.Join(scratch, fmt.Sprintf("f_%d", seed))
+func genFabrics(r *evid.Run, scratch string, topo string, budget, n int, seed int64) (out []fabMachine, transitions int64, ok bool) {
+	dir := filepath.Join(scratch, fmt.Sprintf("f_%s_%d", topo, seed))
 	os.MkdirAll(dir, 0o755)
-	cfg := fmt.Sprintf("SPECIFICATION Spec\nCONSTANTS\n Budget = %d\n Mod = 256\nINVARIANT TypeOK\nINVARIANT Streams\nINVARIANT ExportTopo\nCHECK_DEADLOCK FALSE\n", budget)
+	cfg := fmt.Sprintf("SPECIFICATION Spec\nCONSTANTS\n Budget = %d\n Mod = 256\n BasePads = {0, 4}\n OnlyTopos = {%s}\nINVARIANT TypeOK\nINVARIANT Streams\nINVARIANT ExportTopo\nCHECK_DEADLOCK FALSE\n", budget, strconv.Quote(topo))
 	res, err := tlc.Run(tlc.Options{SpecDir: specDir, Module: "BMFabric", CfgText: cfg, Workers: 1, Timeout: 20 * time.Minute,
 		Args: []string{"-simulate", fmt.Sprintf("file=%s/b,num=%d", dir, n), "-depth", strconv.Itoa(budget + 2), "-seed", strconv.FormatInt(seed, 10)}})
 	if err != nil {
@@ -168,7 +169,7 @@ func genFabrics(r *evid.Run, scratch string, budget, n int, seed int64) (out []f
 			return nil, 0, false
 		}
 		last := beh[len(beh)-1].Vars
-		m := fabMachine{Topo: tlaval.Str(last["topo"]), Shared: tlaval.Bool(last["shared"]), EnvMode: tlaval.Str(last["envmode"]), SimDelay: tlaval.Str(last["simdelay"])}
+		m := fabMachine{BPad: int(tlaval.Int(last["bpad"])), Topo: tlaval.Str(last["topo"]), Shared: tlaval.Bool(last["shared"]), EnvMode: tlaval.Str(last["envmode"]), SimDelay: tlaval.Str(last["simdelay"])}
 		t := tlaval.AsRec(last["tview"])
 		m.Nin, m.Nout = int(tlaval.Int(t["nin"])), int(tlaval.Int(t["nout"]))
 		for _, pv := range tlaval.AsSeq(t["progs"]) {
@@ -216,7 +217,7 @@ func runC02(r *evid.Run) {
 	defer os.RemoveAll(scratch)
 	var states, transitions int64
 	// the reference is schedule independent: every interleaving, every environment stall
-	cfg := fmt.Sprintf("SPECIFICATION AnySpec\nCONSTANTS\n Budget = %d\n Mod = 256\nINVARIANT TypeOK\nINVARIANT Streams\nCHECK_DEADLOCK FALSE\n", r.Pick(10, 14))
+	cfg := fmt.Sprintf("SPECIFICATION AnySpec\nCONSTANTS\n Budget = %d\n Mod = 256\n BasePads = {0}\n OnlyTopos = {\"chain2\", \"chain3\", \"fanin\", \"fanout\", \"fanout2\", \"twoout\", \"merge\", \"sum\", \"threeout\", \"threein\"}\nINVARIANT TypeOK\nINVARIANT Streams\nCHECK_DEADLOCK FALSE\n", r.Pick(10, 14))
 	res, err := tlc.Run(tlc.Options{SpecDir: specDir, Module: "BMFabric", CfgText: cfg, Workers: 12, Timeout: 40 * time.Minute})
 	if err != nil {
 		r.Inconclusive("tlc BMFabric: %v", err)
@@ -228,11 +229,15 @@ func runC02(r *evid.Run) {
 	}
 	states += res.Distinct
 	transitions += res.Generated
-	fabs, tr, ok := genFabrics(r, scratch, 80, r.Pick(60, 600), r.Seed*43+1)
-	if !ok {
-		return
+	var fabs []fabMachine
+	for i, topo := range []string{"chain2", "chain3", "fanin", "fanout", "fanout2", "twoout", "merge", "sum", "threeout", "threein"} {
+		fs, tr, ok := genFabrics(r, scratch, topo, 120, r.Pick(9, 60), r.Seed*43+int64(i))
+		if !ok {
+			return
+		}
+		fabs = append(fabs, fs...)
+		transitions += tr
 	}
-	transitions += tr
 	states += int64(len(fabs))
 	// the generated top level of every machine is also read back as a netlist and validated by TLC
 	// against the machine's bonds (BMTopologyTrace, event "Netlist")
@@ -283,9 +288,41 @@ func runC02(r *evid.Run) {
 			d, _ := strconv.Atoi(parts[1])
 			delays = onePoint(map[string]int{parts[0]: d})
 		}
+		// the root cause of the recorded handshake defect (C04): an i2rw completes while the processor's
+		// own received line for that input is still high from its previous transfer.  Whether that
+		// happened is observed on both back-ends.
+		instr := make([][]fabStep, len(f.Progs)) // the instruction at every program counter value
+		for p, steps := range f.Progs {
+			for k := 0; k < f.Pads[p]+f.BPad; k++ {
+				instr[p] = append(instr[p], fabStep{Op: "NOP"})
+			}
+			instr[p] = append(instr[p], steps...)
+		}
+		recvAt := func(p int, pc uint64) int {
+			if int(pc) < len(instr[p]) && instr[p][pc].Op == "RECV" {
+				return instr[p][pc].A
+			}
+			return -1
+		}
+		simRefire, hdlRefire := false, false
+		prePc := make([]uint64, len(f.Progs))
+		preHigh := make([]bool, len(f.Progs))
+		envSimTick = func(vm *bondmachine.VM, pre bool) {
+			for p := range f.Progs {
+				pv := vm.Processors[p]
+				if pre {
+					prePc[p], preHigh[p] = pv.Pc, false
+					if in := recvAt(p, pv.Pc); in >= 0 && in < len(pv.InputsRecv) {
+						preHigh[p] = pv.InputsRecv[in]
+					}
+				} else if preHigh[p] && pv.Pc != prePc[p] {
+					simRefire = true
+				}
+			}
+		}
 		envSimDelays = delays
 		sres, serr := runEnvTimed(bm, input, 120*want+600, want, hold, ack)
-		envSimDelays = nil
+		envSimDelays, envSimTick = nil, nil
 		var hres envResult
 		sim, files, herr := elaborateBM(bm)
 		if herr == nil {
@@ -303,7 +340,27 @@ func runC02(r *evid.Run) {
 			}
 		}
 		if herr == nil {
+			hPc := make([]uint64, len(f.Progs))
+			hHigh := make([]bool, len(f.Progs))
+			hdlPreClockHook = func(s *vlog.Sim) {
+				for p := range f.Progs {
+					pc, _ := s.Get(procPath(p) + "_pc")
+					hPc[p], hHigh[p] = pc, false
+					if in := recvAt(p, pc); in >= 0 {
+						v, _ := s.Get(procPath(p) + "i" + strconv.Itoa(in) + "_recv")
+						hHigh[p] = v == 1
+					}
+				}
+			}
+			hdlClockHook = func(s *vlog.Sim) {
+				for p := range f.Progs {
+					if pc, _ := s.Get(procPath(p) + "_pc"); hHigh[p] && pc != hPc[p] {
+						hdlRefire = true
+					}
+				}
+			}
 			hres, herr = runEnvHdl(sim, f.Nin, f.Nout, input, 120*want+800, want, hold, ack)
+			hdlPreClockHook, hdlClockHook = nil, nil
 		}
 		class := f.Topo + ":" + f.EnvMode
 		if f.Shared {
@@ -322,7 +379,9 @@ func runC02(r *evid.Run) {
 		// same stream (compared over what both delivered; one of them delivering fewer values than the
 		// network produces while the other goes on is a stall of that side)
 		bad, refNote := "", ""
-		for o := 0; o < f.Nout && bad == ""; o++ {
+		var bads []string
+		for o := 0; o < f.Nout; o++ {
+			bad = ""
 			s, h, ref := sres.Outs[o], hres.Outs[o], f.Outs[o]
 			at := func(x []uint64, i int) uint64 {
 				if i < len(x) {
@@ -362,12 +421,29 @@ func runC02(r *evid.Run) {
 			if bad == "" && len(s) < len(ref) && len(h) < len(ref) && refNote == "" {
 				refNote = fmt.Sprintf("output o%d delivers %d values in the simulator and %d in the generated Verilog, the network delivers at least %d", o, len(s), len(h), len(ref))
 			}
+			if bad != "" {
+				bads = append(bads, bad)
+			}
+		}
+		// a repeated value is the symptom of the recorded handshake defect; any other kind of divergence
+		// on any output is reported in preference to it
+		bad = ""
+		for _, b := range bads {
+			if bad == "" || (strings.Contains(bad, "duplicates-a-value") && !strings.Contains(b, "duplicates-a-value")) {
+				bad = b
+			}
 		}
 		if bad != "" {
 			parts := strings.SplitN(bad, "|", 2)
 			sig := parts[0] + ":" + class
-			if strings.Contains(parts[0], "duplicates-a-value") {
-				sig = parts[0]
+			ctx["i2rw_completed_with_own_received_high"] = map[string]bool{"simulator": simRefire, "generated_verilog": hdlRefire}
+			switch {
+			case simRefire && !hdlRefire:
+				sig = "streams-differ:i2rw-refired-in-the-simulator-only"
+			case hdlRefire && !simRefire:
+				sig = "streams-differ:i2rw-refired-in-the-hardware-only"
+			case hdlRefire && simRefire:
+				sig = "streams-differ:i2rw-refired-in-both-at-different-times"
 			}
 			r.Violate(sig, fmt.Sprintf("machine %s: %s", class, parts[1]), ctx)
 			continue
